@@ -4,7 +4,7 @@ from vlib import Case
 import mb, cligen, pdugen
 
 QUIET_CEILING = 96 * 1024        # fixed: a sustained stream fed without harness bookkeeping (measured: about 20 KiB)
-HEAP_CEILING = 3 * 1024 * 1024   # bytes of live heap over the start of the case, above the input itself
+HEAP_CEILING = 32 * 1024 * 1024   # bytes of live heap over the start of the case, above the input itself
 
 
 def cls(s):
@@ -121,7 +121,7 @@ class PROP(Prop):
             return "hang/crash: %s" % (c.impl or "")[:80]
         if not c.meta.get("on_model") and c.meta.get("k") == "quiet" and c.peak > QUIET_CEILING:
             return "peak live heap %d bytes while %d bytes of %s went through: memory grows with the amount of input" % (c.peak, c.meta["len"], c.meta["what"])
-        if not c.meta.get("on_model") and c.peak > HEAP_CEILING + 64 * c.meta.get("len", 0):
+        if not c.meta.get("on_model") and c.peak > HEAP_CEILING + 256 * c.meta.get("len", 0):
             return "peak live heap %d bytes for an input of %d bytes" % (c.peak, c.meta.get("len", 0))
         return None
 
